@@ -273,3 +273,6 @@ Definition defer_unlambda_flags (c : callee) : bool :=
   | CFuncVar _ => true       (* m["f"].Node.Is(`Ident`): a func-typed variable is an identifier too *)
   | _ => false
   end.
+
+(* ---------- underef (underef_checker.go): dereference-then-index => `p[i]` for a pointer to an array ---------- *)
+Definition rw_underef_index (p i : expr) := {| rw_name := "underef"; rw_lhs := EIndex (EParen (EDeref p)) i; rw_rhs := EIndex p i |}.
